@@ -572,6 +572,39 @@ const FLAGS: [FlagV; 9] = [
 
 pub fn c11_cases(quick: bool) -> Vec<IoRun> {
     let mut out = Vec::new();
+    // decimal text of decimally structured integers: every power of ten below the modulus and its
+    // predecessor, and d * 10^(g*j) for the natural group sizes g of limb-wise decimal conversion
+    for w in [Which::Fq, Which::Fr, Which::Fp] {
+        let f = fld(w);
+        let ten = BigUint::from(10u32);
+        let mut vals: Vec<BigUint> = Vec::new();
+        let mut k = 0u32;
+        while ten.pow(k) < f.p {
+            vals.push(ten.pow(k));
+            vals.push(ten.pow(k) - 1u32);
+            k += 1;
+        }
+        for g in [9u32, 18, 19, 20] {
+            for j in 1..=6u32 {
+                for d in [1u32, 7] {
+                    let v = BigUint::from(d) * ten.pow(g * j);
+                    if v < f.p {
+                        vals.push(v.clone());
+                        vals.push(v + 5u32);
+                    }
+                }
+            }
+        }
+        for chunk in vals.chunks(8) {
+            out.push(IoRun {
+                fpool: chunk
+                    .iter()
+                    .map(|v| FieldOp { which: w, src: FSrc::Checked(hex(&f.to_le(v))) })
+                    .collect(),
+                ..Default::default()
+            });
+        }
+    }
     for w in [Which::Fq, Which::Fr, Which::Fp] {
         let f = fld(w);
         let vals = field_values(f);
